@@ -77,7 +77,7 @@ def run(ctx):
         if q:
             mcf = [ex.submit(mc_one, ctx, "e3", dict(BASE), 3)]
         else:
-            mcf = [ex.submit(mc_one, ctx, "e4", dict(BASE, MaxTau="19", Jumps="{1, 2, 4, 5}"), 5, True),
+            mcf = [ex.submit(mc_one, ctx, "e4", dict(BASE, MaxTau="19", Jumps="{1, 2, 4, 5}"), 5),
                    ex.submit(mc_one, ctx, "yv2", dict(BASE, MaxTau="10", YVs="{1, 2}"), 5),
                    ex.submit(probe, ctx)]
         casep = gen_f.result()
